@@ -4,7 +4,7 @@
    instruction per access to state shared between threads, in program order.
    No proofs in this file. *)
 Inductive instr : Type :=
-| ICheck                 (* do_request: `if self._cur_req_id is not None` + `KEY not in headers` *)
+| ICheck                 (* do_request: `if self._cur_req_id is not None` + `not any(name.lower() == KEY for name in headers)` *)
 | IAcquire               (* `with self._reqid_generator_guard:` entry *)
 | IRelease               (* ... exit *)
 | ILoad (r : nat)        (* local r := self._cur_req_id *)
